@@ -87,7 +87,7 @@ def gen_operator(d, theory_raw, real=False, max_targets=5, min_targets=1, allow_
         tries += 1
         kind = d.weighted(
             "op:tkind",
-            [("free", 6), ("wall", 2), ("init", 1), ("near", 1)],
+            [("free", 6), ("wall", 3), ("init", 1), ("near", 1)],
         )
         if kind == "free":
             mu = math.exp(d.uniform("op:logmu", math.log(1.3), math.log(400.0)))
@@ -105,6 +105,10 @@ def gen_operator(d, theory_raw, real=False, max_targets=5, min_targets=1, allow_
             mu = base * (1.0 + d.pick("op:neareps", [1e-9, -1e-9, 1e-4, -1e-4]))
         if kind == "init" and d.chance("op:initnf", 0.7):
             nf = nf0
+        elif kind == "wall" and d.chance("op:wallnf", 0.7):
+            # exactly on a matching scale: the scheme below it (path ends on the
+            # wall) or the scheme above it (path crosses the wall and stops)
+            nf = d.pick("op:wallside", [i + 3, i + 4])
         else:
             default = 3 + sum(1 for w in walls if w <= mu * mu)
             nf = d.weighted(
@@ -118,6 +122,10 @@ def gen_operator(d, theory_raw, real=False, max_targets=5, min_targets=1, allow_
             continue
         seen.add(key)
         targets.append([mu, nf])
+    if d.chance("op:chain", 0.3):
+        chain = _chain_targets(d, theory_raw, walls, lin_walls, nf0, real, max_targets)
+        if len(chain) >= min_targets:
+            targets = d.shuffle("op:chainorder", chain)
     downward = any(nf < nf0 for _, nf in targets)
     method = d.pick("op:method", CHEAP_METHODS)
     xgrid = gen_xgrid(d)
@@ -144,6 +152,45 @@ def gen_operator(d, theory_raw, real=False, max_targets=5, min_targets=1, allow_
         ),
         debug=dict(skip_singlet=False, skip_non_singlet=False),
     )
+
+
+def _chain_targets(d, theory_raw, walls, lin_walls, nf0, real, max_targets):
+    """Targets strung along ONE flavour-number chain: some of them exactly on the
+    matching scales the chain crosses (so that their whole path is a prefix of the
+    paths of the targets further along), one beyond."""
+    top = 5 if real else 6
+    ups = nf0 < top
+    downs = nf0 > 3
+    if not (ups or downs):
+        return []
+    up = ups and (not downs or d.chance("ch:dir", 0.6))
+    ms = [m[0] for m in theory_raw["heavy"]["masses"]]
+    ks = theory_raw["heavy"]["matching_ratios"]
+    out = []
+    if up:
+        idx = list(range(nf0 - 3, top - 3))  # walls crossed going up
+        for i in idx:
+            if d.chance("ch:onwall", 0.7):
+                out.append([d.pick("ch:form", [ms[i] * ks[i], lin_walls[i]]), i + 3])
+        last = idx[-1] if idx else None
+        nf_end = d.between("ch:nfend", nf0 + 1, top)
+        lo = lin_walls[nf_end - 4]
+        out.append([round(lo * d.uniform("ch:beyond", 1.1, 4.0), 3), nf_end])
+    else:
+        idx = list(range(nf0 - 4, -1, -1))  # walls crossed going down
+        for i in idx:
+            if d.chance("ch:onwall", 0.7):
+                out.append([d.pick("ch:form", [ms[i] * ks[i], lin_walls[i]]), i + 4])
+        nf_end = d.between("ch:nfend", 3, nf0 - 1)
+        hi = lin_walls[nf_end - 3]
+        out.append([round(max(1.3, hi * d.uniform("ch:beyond", 0.3, 0.9)), 3), nf_end])
+    seen, uniq = set(), []
+    for mu, nf in out:
+        k = (float(mu).hex(), nf)
+        if k not in seen:
+            seen.add(k)
+            uniq.append([mu, nf])
+    return uniq[:max_targets]
 
 
 def gen_cards(d, real=False, **kw):
